@@ -554,6 +554,9 @@ func TestC11(t *testing.T) {
 		if i%40 == 22 {
 			c11manyFailures(rep, seed, i/40)
 		}
+		if i%40 == 13 {
+			c11manyChannels(rep, seed, i/40)
+		}
 		if i%40 == 33 {
 			c11steady(rep, seed, i/40)
 		}
@@ -1856,4 +1859,96 @@ func c11clients(rep *vh.Report, seed uint64, idx int) {
 	rep.Eval(1)
 	rep.Count("scenarios_clients", 1)
 	rep.Distinct("clients", idx)
+}
+
+// c11manyChannels: a node with several hundred channels (more than any chunk size a fan-out might be cut into). One
+// goroutine writes an item to all channels and, directly afterwards, an item to one channel (or to all again): on every
+// channel its items come out in the order it wrote them.
+func c11manyChannels(rep *vh.Report, seed uint64, idx int) {
+	if aborted() {
+		return
+	}
+	r := vh.Sub(seed, fmt.Sprintf("c11-many-%d", idx))
+	hookReset(r.U64(), false, false)
+	K := 300 + r.Intn(80)
+	trs := make([]*fake.Transport, K)
+	var eps []gomavlib.EndpointConf
+	for i := range trs {
+		trs[i] = fake.NewTransport(fmt.Sprintf("m%d", i))
+		eps = append(eps, gomavlib.EndpointCustom{ReadWriteCloser: trs[i]})
+	}
+	node := &gomavlib.Node{Endpoints: eps, Dialect: testDialect, OutVersion: gomavlib.V2, OutSystemID: 42, OutComponentID: 7, HeartbeatDisable: true}
+	if err := node.Initialize(); err != nil {
+		rep.HarnessError(err.Error())
+		return
+	}
+	cons := newConsumer(rep, "C11", "custom", node)
+	cons.start()
+	if !cons.waitOpen(K, 5*time.Second) {
+		rep.HarnessError(fmt.Sprintf("C11 many channels: %d of %d channels opened", len(cons.openChannels()), K))
+		safeClose(rep, node)
+		return
+	}
+	chOf := map[*fake.Transport]*gomavlib.Channel{}
+	for _, ci := range cons.openChannels() {
+		chOf[ci.Tr] = ci.Ch
+	}
+	const fam = 0xCE
+	rounds := 40
+	want := make([][]uint64, K)
+	for i := 0; i < rounds; i++ {
+		a, b := uint64(fam)<<56|uint64(2*i+1), uint64(fam)<<56|uint64(2*i+2)
+		_ = node.WriteMessageAll(&MessageVfUid{Uid: a})
+		for t := range want {
+			want[t] = append(want[t], a)
+		}
+		if i%3 == 2 {
+			_ = node.WriteMessageAll(&MessageVfUid{Uid: b})
+			for t := range want {
+				want[t] = append(want[t], b)
+			}
+		} else {
+			t := r.Intn(K)
+			_ = node.WriteMessageTo(chOf[trs[t]], &MessageVfUid{Uid: b})
+			want[t] = append(want[t], b)
+		}
+		// (the backlog of every channel stays far below its bound: two items per round, and the round ends when they are out)
+		waitFor(func() bool {
+			for t, tr := range trs {
+				if tr.NWrites() < len(want[t]) {
+					return false
+				}
+			}
+			return true
+		}, func() int64 {
+			n := 0
+			for _, tr := range trs {
+				n += tr.NWrites()
+			}
+			return int64(n)
+		}, 500*time.Millisecond)
+	}
+	rep.Eval(1)
+	rep.Count("many_channel_runs", 1)
+	rep.Count("many_channel_channels", K)
+	rep.Distinct("many", idx, K)
+	for t, tr := range trs {
+		var got []uint64
+		for _, w := range tr.Writes() {
+			if f, _, st := ref.ParseAt(w.Data, 0); st == ref.ParseOK {
+				if uid, ok := uidOfWire(f); ok && uid>>56 == fam {
+					got = append(got, uid)
+				}
+			}
+		}
+		if !eqU64(got, want[t]) {
+			rep.Violation("what="+classifySeq(got, want[t])+" ep=custom", fmt.Sprintf("node with %d channels, one goroutine writing an item to all and then one to a single channel (or to all again): channel %d received %d of its %d items, or not in the order written", K, t, len(got), len(want[t])),
+				map[string]interface{}{"got_tail": got[max(0, len(got)-6):], "want_tail": want[t][max(0, len(want[t])-6):]})
+			break
+		}
+	}
+	if !safeClose(rep, node) {
+		return
+	}
+	<-cons.done
 }
